@@ -289,7 +289,7 @@ func c19Main(r *engine.Run) {
 	cfgs := c19Configs(r.Thorough())
 	step := 5.0
 	if r.Thorough() {
-		step = 2
+		step = 1 // the property's 1-degree graticule on every configuration
 	}
 	r.States.Add(int64(len(cfgs)))
 	if r.Parallel(len(cfgs), func(i int) {
